@@ -53,8 +53,16 @@ class _Rec:
 
 
 class Sched:
-    def __init__(self, delays=None, tie_seed=0, watchdog_s=30.0, epoch=1.7e9):
+    def __init__(self, delays=None, tie_seed=0, watchdog_s=30.0, epoch=1.7e9, jitter=None):
         import random
+        # jitter = {"p": .., "seed": .., "dts": [..]}: a seeded random line-level scheduler.  At every statement of
+        # a writer thread, with probability p, the thread is delayed by a dt drawn from dts (0 = plain yield to a
+        # randomly chosen runnable thread).  Deterministic for a given case because everything else is.
+        self.jitter = None
+        if isinstance(jitter, dict) and jitter.get("p", 0) > 0:
+            self.jitter = (float(jitter["p"]), [float(x) for x in (jitter.get("dts") or [0.0])])
+            self.jrng = random.Random(int(jitter.get("seed", 0)))
+        self.jitter_hits = 0
         self.cv = _real_threading.Condition()
         self.now = 0.0
         self.epoch = epoch
@@ -283,6 +291,9 @@ class Sched:
                 self.trace.append("t=%.4f delay w%d seg%d line%d (%s:%d) dt=%g" % (
                     self.now, rec.idx, rec.seg, rec.line, os.path.basename(code.co_filename), line, dt))
             self.v_sleep(dt, why="delay")
+        elif self.jitter is not None and self.jrng.random() < self.jitter[0]:
+            self.jitter_hits += 1
+            self.v_sleep(self.jrng.choice(self.jitter[1]), why="delay")
         return None
 
     def install_monitoring(self, modules, deep_modules=()):
